@@ -152,9 +152,9 @@ def plan(tier, seed):
     p.modules.append(("yuvxyb-math/src/lib.rs", open(os.path.join(here, "..", "harness", "math_stub_lib.rs")).read()))
     hs = []
     # (a) decode: pointwise + layout independence on symbolic-geometry frames with symbolic contents
-    inst = [("u8", 1, 1, 2, 2)]
+    inst = [("u8", 1, 1, 2, 2), ("u8", 2, 0, 4, 1)]
     if thorough:
-        inst += [("u16", 1, 0, 2, 1), ("u8", 0, 0, 2, 1), ("u8", 2, 0, 4, 1), ("u8", 0, 1, 2, 2), ("u8", 1, 1, 4, 2), ("u16", 0, 0, 2, 2), ("u8", 2, 2, 4, 4)]
+        inst += [("u16", 1, 0, 2, 1), ("u8", 0, 0, 2, 1), ("u8", 0, 1, 2, 2), ("u8", 1, 1, 4, 2), ("u16", 0, 0, 2, 2), ("u8", 2, 2, 4, 4)]
     txt = geom.PRELUDE
     for k, (T, sx, sy, w, h) in enumerate(inst):
         n = "k_c11_dec_%s_ss%d%d_%dx%d" % (T, sx, sy, w, h)
